@@ -33,7 +33,8 @@ NOISE_LINES = ['0 0 0\n', '3 1 1\n', ' 12 0 0 \r\n', '5 0\n', '1 2 3 4\n',
                '0.000 seconds.\n',
                'Total: 0 tests, 0 failures, 0 errors and 0 skipped in 0.1 '
                'seconds.\n', 'Tests with errors:\n   bogus\n',
-               'café ☃\n', 'no newline at end', '\n' * 50]
+               'café ☃\n', 'no newline at end', '\n' * 50,
+               '7 0 0 widgets processed\n', '2026 09 29 12:00:01 started\n']
 STREAMS = ['stdout', 'stderr', '__stderr__', 'fd1', 'fd2', 'stdout.buffer']
 
 
